@@ -242,11 +242,11 @@ for name, op, rec, unwind, defs, clause, muts in OPS:
     if op in TAILS and op != "RULE_IFNOT":
         # quick variant: every tail call cut (the part of the opcode before its tail call, any operands)
         opunit(name + ".notail", op, clause + " [paths up to, not including, the tail call of the last sub-rule]", muts, unwind=unwind, recurses=rec, tail_not=None,
-               extra_defines=["-D" + d for d in defs] + (["-DPEG_NO_SUCCESS"] if op in ("RULE_SEQUENCE", "RULE_IF") else []), unwindset=dict(HLOOPS, **{lid: 1 for lid in TAILS.values()}), tier="quick", timeout=200,
+               extra_defines=["-D" + d for d in defs] + (["-DPEG_NO_SUCCESS"] if op in ("RULE_SEQUENCE", "RULE_IF") else []), unwindset=dict(HLOOPS, **{lid: 1 for lid in TAILS.values()}), tier="quick", timeout=600,
                bound="bytecode <= 24 words (symbolic operands, wf_peg), text length symbolic (any length, window end and start offset); loops of peg_rule unwound %dx without unwinding assertion; tail calls cut; capture stacks <= 4 entries" % unwind)
     opunit(name, op, clause, muts, unwind=unwind, recurses=rec, tail_not=("RULE_LENPREFIX" if op in TAILS else None),
            extra_defines=["-D" + d for d in defs], unwindset=us,
-           tier=("thorough" if op in TAILS else "quick"), timeout=(580 if op in TAILS else 200),
+           tier=("thorough" if op in TAILS else "quick"), timeout=(900 if op in TAILS else 600),
            bound="bytecode <= 24 words (symbolic, wf_peg), text length symbolic (any length, window end and start offset); loops of peg_rule unwound %dx without unwinding assertion%s; capture stacks <= 4 entries" % (unwind, tailnote))
 
 # lenprefix: FAILS on the pinned tree (genuine defect: mode not restored when the length pattern fails) - kept disabled
